@@ -327,6 +327,47 @@ def frames_chopper(chk):
 
 
 # ---- freshness / history independence, on the real library (finite argument domains) -----------------------------------------------------------
+def stale_result_failures():
+    """call, change an argument IN PLACE, call again with the same objects: the second answer must be the one for the changed argument
+    (equal to a call with fresh copies), and must be a new object -- a function that remembers its last call by reference fails this"""
+    import numpy as np
+    import scipp as sc
+    from vf.realrun import real_module
+    bl = real_module('conversion.beamline', fresh=True)
+    tof = real_module('conversion.tof', fresh=True)
+    vecs = lambda a: sc.vectors(dims=['pixel'], values=np.array(a, dtype=float), unit='m')
+    cases = {
+        'two_theta': (bl.two_theta, lambda: dict(incident_beam=sc.vector([0.0, 0.0, 10.0], unit='m'), scattered_beam=vecs([[0, 1, 0], [1, 0, 1], [0, -1, -1]])), 'scattered_beam'),
+        'L2': (bl.L2, lambda: dict(scattered_beam=vecs([[0, 1, 0], [1, 0, 1]])), 'scattered_beam'),
+        'straight_scattered_beam': (bl.straight_scattered_beam, lambda: dict(position=vecs([[0, 1, 0], [1, 0, 1]]), sample_position=sc.vector([0.0, 0.0, 0.5], unit='m')), 'position'),
+        'wavelength_from_tof': (tof.wavelength_from_tof, lambda: dict(tof=sc.array(dims=['tof'], values=[1000.0, 2000.0], unit='us'), Ltotal=sc.scalar(10.0, unit='m')), 'tof'),
+        'energy_from_wavelength': (tof.energy_from_wavelength, lambda: dict(wavelength=sc.array(dims=['w'], values=[1.0, 2.0], unit='angstrom')), 'wavelength'),
+        'Q_from_wavelength': (tof.Q_from_wavelength, lambda: dict(wavelength=sc.array(dims=['w'], values=[1.0, 2.0], unit='angstrom'), two_theta=sc.scalar(1.0, unit='rad')), 'wavelength'),
+    }
+    fails = []
+    for name, (fn, mk, which) in cases.items():
+        kw = mk()
+        r1 = fn(**kw)
+        r1_copy = r1.copy()
+        if kw[which].dtype == sc.DType.vector3:
+            kw[which].values = kw[which].values[::-1] * 1.5 + 0.25
+        else:
+            kw[which] *= 1.5
+        r2 = fn(**kw)
+        want = fn(**{k: v.copy() for k, v in kw.items()})
+        if not sc.identical(r2, want):
+            fails.append({'id': name, 'function': name, 'problem': f'after changing `{which}` in place the function still answers for the old value: {r2.values} instead of {want.values}'})
+            continue
+        if r2 is r1:
+            fails.append({'id': name, 'function': name, 'problem': 'consecutive calls return the same object'})
+            continue
+        r2 *= 0.5          # changing one result must not change an earlier or a later one
+        r3 = fn(**kw)
+        if not sc.identical(r1, r1_copy) or not sc.identical(r3, want):
+            fails.append({'id': name, 'function': name, 'problem': 'results of consecutive calls share storage (changing one changes another)'})
+    return fails
+
+
 def freshness_native(chk):
     import numpy as np
     import scipp as sc
@@ -546,7 +587,13 @@ def freshness_native(chk):
         if not all(sc.identical(y, ys[0]) for y in ys[1:]):
             bad.append(f'{cls.__name__}: repeated evaluation with the same parameter objects differs')
     record('repeated identical requests give identical answers (quadratures, transmission map, chopper openings, peak models)', not bad, str(bad))
+    stale = stale_result_failures()
+    record('an argument changed in place between two calls is seen by the second call; results of consecutive calls do not share storage', not stale, str(stale[:2]))
     chk.extra['native_freshness_checks'] = n
+    # the native probes above are also the stand-in of a demoted frame section (they are registered as obligations one by one;
+    # this entry only declares them as such)
+    chk.bounded_check('native-freshness-and-history-probes', 'real objects: identity / mutate-and-look-again / repeated requests / arguments changed in place between calls',
+                      f'{n} probes over the finite sets of factories, lookups and kernels', n, [])
 
 
 def replay(rec):
